@@ -1,0 +1,43 @@
+//! Verification hook (feature `verif_hooks`, off by default): records every expansion of
+//! `#[nutype]` as one JSON line appended to the file named by `NUTYPE_VERIF_TRACE`.
+//! It only observes: the macro's output is computed by the unchanged pipeline.
+
+use std::io::Write;
+
+fn esc(s: &str) -> String {
+    let mut out = String::with_capacity(s.len() + 8);
+    for c in s.chars() {
+        match c {
+            '"' => out.push_str("\\\""),
+            '\\' => out.push_str("\\\\"),
+            '\n' => out.push_str("\\n"),
+            '\r' => out.push_str("\\r"),
+            '\t' => out.push_str("\\t"),
+            c if (c as u32) < 0x20 => out.push_str(&format!("\\u{:04x}", c as u32)),
+            c => out.push(c),
+        }
+    }
+    out
+}
+
+pub fn emit(attrs: &proc_macro::TokenStream, type_definition: &proc_macro::TokenStream) {
+    let path = match std::env::var("NUTYPE_VERIF_TRACE") {
+        Ok(p) if !p.is_empty() => p,
+        _ => return,
+    };
+    let result = crate::expand_nutype(attrs.clone().into(), type_definition.clone().into());
+    let (ok, text) = match &result {
+        Ok(ts) => (true, ts.to_string()),
+        Err(e) => (false, e.to_string()),
+    };
+    let line = format!(
+        "{{\"attrs\":\"{}\",\"def\":\"{}\",\"ok\":{},\"out\":\"{}\"}}\n",
+        esc(&attrs.to_string()),
+        esc(&type_definition.to_string()),
+        ok,
+        esc(&text)
+    );
+    if let Ok(mut f) = std::fs::OpenOptions::new().create(true).append(true).open(&path) {
+        let _ = f.write_all(line.as_bytes());
+    }
+}
